@@ -7,7 +7,9 @@ Every program is
 
     module c12m
     contains
-      subroutine s(n, m, k, t, u, a, b, c, q)      ! arrays (0:4), q(0:4,0:4); m = 4
+      subroutine s(n, m, k, t, u, a, b, c, q, d, e)  ! arrays (0:4), q(0:4,0:4); m = 4
+        ! a, b, c, q intent(inout); d intent(out) (undefined on entry: the
+        ! inputs pass it all-POISON); e intent(in); w(0:4) is a local array
         <1..4 top-level statements>
       end subroutine
       subroutine inc(x) / fill(x, n) / getv(x, y)  ! helpers for the call statements
@@ -21,7 +23,7 @@ from fractions import Fraction as F
 
 HEADER = """module c12m
 contains
-subroutine s(n, m, k, t, u, a, b, c, q)
+subroutine s(n, m, k, t, u, a, b, c, q, d, e)
   integer, intent(in) :: n
   integer, intent(in) :: m
   integer, intent(inout) :: k
@@ -31,8 +33,11 @@ subroutine s(n, m, k, t, u, a, b, c, q)
   real, intent(inout) :: b(0:4)
   real, intent(inout) :: c(0:4)
   real, intent(inout) :: q(0:4,0:4)
+  real, intent(out) :: d(0:4)
+  real, intent(in) :: e(0:4)
   integer :: i
   integer :: j
+  real :: w(0:4)
 """
 FOOTER = """end subroutine s
 subroutine inc(x)
@@ -96,6 +101,14 @@ STATEMENTS = {
     "inc(t)": "call inc(t)",
     "fill(a)": "call fill(a, m)",
     "getv(a,u)": "call getv(a, u)",
+    # other storage classes: d is an intent(out) dummy (undefined on entry),
+    # e an intent(in) dummy, w a local array (undefined on entry)
+    "d:=1": "d(:) = 1.0",
+    "Ld*=": "do i = 1, n\n  d(i) = d(i) * 2.0 + b(i)\nend do",
+    "d1=e2": "d(1) = e(2)",
+    "Lw=e": "do i = 1, n\n  w(i) = e(i) + 1.0\nend do",
+    "Lb=w": "do i = 1, n\n  b(i) = w(i) * e(i)\nend do",
+    "w:=0": "w(:) = 0.0",
 }
 
 _FULL = list(STATEMENTS)
@@ -104,8 +117,8 @@ _T3 = ["t=2", "u=t", "t=a2", "a1=0", "a2=a1", "b1=a2", "ak=t", "a:=0", "a1n=b",
        "inc(t)"]
 _Q12 = ["t=2", "u=t", "t=a2", "a1=0", "b1=a2", "ak=t", "a:=0", "a1n=b", "La=0",
         "Lb=a", "Lfull", "Ltmp", "Lred", "Lifc", "Lifelse", "if(t)u", "if(n)t|u",
-        "if(k)a1", "inc(t)", "fill(a)"]
-_Q3 = ["u=t", "t=a2", "a1=0", "b1=a2", "La=0", "Ltmp", "if(n)t|u"]
+        "if(k)a1", "inc(t)", "fill(a)", "d:=1", "Ld*=", "Lw=e", "Lb=w"]
+_Q3 =["u=t", "t=a2", "a1=0", "b1=a2", "La=0", "Ltmp", "if(n)t|u"]
 
 #: per tier: program length -> statement alphabet (quick is a subset of
 #: thorough for every length)
@@ -173,7 +186,7 @@ def input_key(inp):
 
 
 def make_args(inp):
-    """Fresh argument storage (n, m, k, t, u, a, b, c, q) for one input."""
+    """Fresh argument storage (n, m, k, t, u, a, b, c, q, d, e) for one input."""
     from mc.fortsem import interp as I
     nval, kval, tval, avar = inp
     rng = range(0, MVAL + 1)
@@ -192,8 +205,12 @@ def make_args(inp):
         I.make_array("c", "real", [(0, MVAL)], [F(-4 * i - 1, 4) for i in rng]),
         I.make_array("q", "real", [(0, MVAL), (0, MVAL)],
                      [F(800 + 80 * i + 8 * j + 1, 8) for j in rng for i in rng]),
+        # intent(out): undefined on entry (all POISON)
+        I.make_array("d", "real", [(0, MVAL)], None),
+        I.make_array("e", "real", [(0, MVAL)], [F(3 * i + 2, 2) for i in rng]),
     ]
 
 
-ARG_NAMES = ["n", "m", "k", "t", "u", "a", "b", "c", "q"]
-ARRAYS = ["a", "b", "c", "q"]
+ARG_NAMES = ["n", "m", "k", "t", "u", "a", "b", "c", "q", "d", "e"]
+#: every array of routine s: dummies (inout a, b, c, q; out d; in e), local w
+ARRAYS = ["a", "b", "c", "q", "d", "e", "w"]
